@@ -76,12 +76,12 @@ func (a A) U64(i int) uint64 {
 	must(err)
 	return v
 }
-func (a A) Int(i int) int     { return int(a.I64(i)) }
-func (a A) U32(i int) uint32  { return uint32(a.U64(i)) }
-func (a A) U16(i int) uint16  { return uint16(a.U64(i)) }
-func (a A) U8(i int) uint8    { return uint8(a.U64(i)) }
-func (a A) Rune(i int) rune   { return rune(a.I64(i)) }
-func (a A) Bool(i int) bool   { return a[i] == "1" }
+func (a A) Int(i int) int      { return int(a.I64(i)) }
+func (a A) U32(i int) uint32   { return uint32(a.U64(i)) }
+func (a A) U16(i int) uint16   { return uint16(a.U64(i)) }
+func (a A) U8(i int) uint8     { return uint8(a.U64(i)) }
+func (a A) Rune(i int) rune    { return rune(a.I64(i)) }
+func (a A) Bool(i int) bool    { return a[i] == "1" }
 func (a A) Bytes(i int) []byte { return []byte(a.Str(i)) }
 func (a A) Str(i int) string {
 	b, err := hex.DecodeString(a[i])
